@@ -228,8 +228,10 @@ static void String_Rem(var self, var obj) {
     }
     size_t count = strlen(pos) - strlen(c->c_str(obj)) + 1;
     memmove((char*)pos, pos + strlen(c->c_str(obj)), count);
+    return;
   }
   
+  throw(ValueError, "Object %$ not in String!", obj);
 }
 
 static uint64_t String_Hash(var self) {
